@@ -41,6 +41,25 @@ private theorem nf_x2w (x : ℝ) : vmr2mixing_ratio x = x / (1 - x) * Mw / Md :=
 private theorem nf_x2q (x : ℝ) : vmr2specific_humidity x = x / ((1 - x) * Md / Mw + x) := by
   simp only [vmr2specific_humidity] <;> ring
 
+/-- Murphy–Koop ice formula, fixed form (exact rationals of the decimal literals) -/
+private theorem nf_ice (T : ℝ) : e_eq_ice_mk T =
+    Real.exp (4775213 / 500000 - 1144653 / 200 / T + 88267 / 25000 * Real.log T
+      - 182083 / 25000000 * T) := by
+  simp only [e_eq_ice_mk] <;> ring_nf
+/-- Murphy–Koop liquid-water formula, fixed form -/
+private theorem nf_water (T : ℝ) : e_eq_water_mk T =
+    Real.exp (54842763 / 1000000 - 338161 / 50 / T - 421 / 100 * Real.log T + 367 / 1000000 * T
+      + Real.tanh (83 / 2000 * (T - 1094 / 5))
+        * (26939 / 500 - 66561 / 50 / T - 944523 / 100000 * Real.log T + 561 / 40000 * T)) := by
+  simp only [e_eq_water_mk] <;> ring_nf
+/-- moist-adiabatic lapse rate, fixed form -/
+private theorem nf_lapse (e_eq : ℝ → ℝ) (p T : ℝ) : moist_lapse_rate p T e_eq =
+    C.earth_standard_gravity / C.isobaric_mass_heat_capacity *
+      ((1 + C.heat_of_vaporization * vmr2mixing_ratio (e_eq T / p) / (C.gas_constant_dry_air * T)) /
+        (1 + C.heat_of_vaporization ^ 2 * vmr2mixing_ratio (e_eq T / p) /
+          (C.isobaric_mass_heat_capacity * C.gas_constant_water_vapor * T ^ 2))) := by
+  simp only [moist_lapse_rate] <;> ring_nf
+
 /-! ## The six converters are exact inverses of their counterparts -/
 
 /-- x → w → x -/
@@ -356,7 +375,7 @@ private theorem ice_continuousOn : ContinuousOn e_eq_ice_mk (Set.Ioi 0) := by
     Real.continuousOn_log.mono (fun x hx => ne_of_gt hx)
   have hinv : ∀ c : ℝ, ContinuousOn (fun T : ℝ => c / T) (Set.Ioi 0) := fun c =>
     continuousOn_const.div continuousOn_id (fun x hx => ne_of_gt hx)
-  unfold e_eq_ice_mk
+  rw [show e_eq_ice_mk = _ from funext nf_ice]
   apply Real.continuous_exp.comp_continuousOn
   exact (((continuousOn_const.sub (hinv _)).add (continuousOn_const.mul hlog)).sub
     (continuousOn_const.mul continuousOn_id))
@@ -366,7 +385,7 @@ private theorem water_continuousOn : ContinuousOn e_eq_water_mk (Set.Ioi 0) := b
     Real.continuousOn_log.mono (fun x hx => ne_of_gt hx)
   have hinv : ∀ c : ℝ, ContinuousOn (fun T : ℝ => c / T) (Set.Ioi 0) := fun c =>
     continuousOn_const.div continuousOn_id (fun x hx => ne_of_gt hx)
-  unfold e_eq_water_mk
+  rw [show e_eq_water_mk = _ from funext nf_water]
   apply Real.continuous_exp.comp_continuousOn
   have htanh : Continuous (fun T : ℝ => Real.tanh ((83 : ℝ) / 2000 * (T - 1094 / 5))) := by
     have : Continuous Real.tanh := by
@@ -477,7 +496,7 @@ theorem C09_lapse_bounds (e_eq : ℝ → ℝ) (p T : ℝ) (hT : 0 < T) (hT4 : T 
   have hw : 0 < vmr2mixing_ratio (e_eq T / p) := by
     have h1 : 0 < 1 - e_eq T / p := by linarith
     simp only [nf_x2w]; positivity
-  simp only [moist_lapse_rate]
+  simp only [nf_lapse]
   set w := vmr2mixing_ratio (e_eq T / p) with hwdef
   set g := C.earth_standard_gravity
   set Lv := C.heat_of_vaporization
@@ -517,7 +536,7 @@ theorem C09_lapse_dry_limit (e_eq : ℝ → ℝ) (T : ℝ) (_hT : 0 < T) :
   have hRv := C.gas_constant_water_vapor_pos
   have hCp := C.isobaric_mass_heat_capacity_pos
   have := hMd; have := hMw
-  simp only [moist_lapse_rate]
+  simp only [nf_lapse]
   -- e/p → 0
   have h0 : Filter.Tendsto (fun p : ℝ => e_eq T / p) Filter.atTop (nhds 0) :=
     Filter.Tendsto.div_atTop tendsto_const_nhds Filter.tendsto_id
